@@ -169,7 +169,7 @@ Record bearer := mkBearer {
   b_mtu : Z;            (* bearer.att_mtu *)
   b_enc : bool;         (* connection.encryption != 0 *)
   b_auth : bool;        (* connection.authenticated *)
-  b_enh : bool          (* enhanced (EATT) bearer; not consulted by any modelled branch *)
+  b_enh : bool          (* enhanced (EATT) bearer: Exchange MTU is refused there *)
 }.
 
 Inductive rres := RErr (code : Z) | ROk (v : bytes) | RExc.
@@ -599,10 +599,23 @@ Definition set_subs (st : srv) (subs : list (Z * bytes)) : srv :=
 Definition views (st : srv) : list view := map (view_of (s_b st) (s_subs st)) (s_db st).
 Definition mtu_of (st : srv) : Z := b_mtu (s_b st).
 
-(* on_att_exchange_mtu_request: response first, then the MTU update *)
+(* The ATT_MTU of a bearer as negotiated on the wire.
+   Enhanced bearer: LeCreditBasedChannel.__init__ sets att_mtu = min(mtu, peer_mtu), the two
+   MTU fields of the L2CAP connection request / response, and nothing changes it afterwards
+   (after D10f an Exchange MTU Request is refused on an enhanced bearer).
+   Fixed bearer: ATT_DEFAULT_MTU (23) until an Exchange MTU Request with client_rx_mtu >= 23
+   is answered with server_rx_mtu = max_mtu: then min of the two. *)
+Definition negotiated_mtu (local peer : Z) : Z := Z.min local peer.
+Definition eatt_bearer (local peer : Z) (enc auth : bool) : bearer :=
+  mkBearer (negotiated_mtu local peer) enc auth true.
+
+(* on_att_exchange_mtu_request: refused on an enhanced bearer (generic on_att_request);
+   otherwise the response first, then the MTU update *)
 Definition h_mtu (st : srv) (m : Z) : srv * list bytes :=
-  (if DEFAULT_MTU <=? m then set_mtu st (Z.min (s_max_mtu st) m) else st,
-   [[OP_MTU_RSP] ++ le16 (s_max_mtu st)]).
+  if b_enh (s_b st) then (st, [err_rsp OP_MTU_REQ 0 E_REQ_NOT_SUPPORTED])
+  else
+    (if DEFAULT_MTU <=? m then set_mtu st (negotiated_mtu (s_max_mtu st) m) else st,
+     [[OP_MTU_RSP] ++ le16 (s_max_mtu st)]).
 
 (* on_att_handle_value_confirmation (after D10d) followed by the loop running to idle:
    the indicating task finishes, releases the semaphore and the oldest waiting
